@@ -641,7 +641,7 @@ func genLife(t *rapid.T) lifeCase {
 var chkLife = harness.Define("server-lifecycle", genLife, runLife)
 
 func TestRandom(t *testing.T) {
-	chkLife.Rapid(t, harness.Pick(24, 1200))
+	chkLife.Rapid(t, harness.Pick(48, 1200))
 }
 
 // TestEndDuringAccept: shutdown / cancellation arrive while the accept callback is still running for the newest connection.
